@@ -39,6 +39,7 @@ ASSUMPTIONS = ['a server returning more bytes than requested or announcing '
 REQUIRED = ['transfers', 'bytes_compared', 'reordered_batches',
             'short_reads_served', 'failures_injected', 'failures_reported',
             'size_lies', 'file_object_ops', 'sparse_transfers',
+            'tree_transfers', 'links_followed',
             'openssh_transfers']
 BUDGET_S = {'quick': 300, 'thorough': 3400}
 CASE_TIMEOUT_S = 90
@@ -94,6 +95,27 @@ def gen_cases(tier, seed):
                                   rng.choice([0, 1, 4096, 70000])]
                                  for _ in range(rng.choice([1, 2, 4]))],
                       'how': rng.choice(['put', 'get', 'copy']),
+                      'block': rng.choice([4096, 16384, 65536]),
+                      'maxreq': rng.choice([1, 4, 128]),
+                      'chunk': 'all', 'cseed': rng.randrange(1 << 30)})
+    # directory trees with symbolic links, copied recursively
+    for i in range(24 if tier == 'quick' else 400):
+        cases.append({'op': 'tree', 'how': ['get', 'put', 'copy', 'mget'][i % 4],
+                      'follow': i % 3 != 0,
+                      'sparse_arg': rng.choice([None, False]),
+                      'sizes': [rng.choice([0, 1, 5, 100, 4096, 70000])
+                                for _ in range(3)],
+                      'block': rng.choice([4096, 16384, 65536]),
+                      'maxreq': rng.choice([1, 4, 128]),
+                      'chunk': 'all', 'cseed': rng.randrange(1 << 30)})
+    # many separate data extents: the server lists at most 128 ranges per
+    # reply, so the client has to ask again from a non-zero offset
+    for i, nx in enumerate([127, 128, 129, 130, 200, 300, 257, 129] *
+                           (1 if tier == 'quick' else 6)):
+        cases.append({'op': 'sparse',
+                      'layout': [[8192, 4096]] * nx +
+                      ([[8192, 0]] if i % 3 == 0 else []),
+                      'how': ['get', 'copy', 'put', 'get'][i % 4],
                       'block': rng.choice([4096, 16384, 65536]),
                       'maxreq': rng.choice([1, 4, 128]),
                       'chunk': 'all', 'cseed': rng.randrange(1 << 30)})
@@ -374,16 +396,20 @@ def _run_sparse(case, mon, viol):
 
     # build a sparse source: (hole, data) runs
     src = os.path.join(tmp, 'src.bin')
-    expect = bytearray()
-    with open(src, 'wb') as f:
-        for i, (hole, dlen) in enumerate(case['layout']):
-            f.seek(hole, os.SEEK_CUR)
-            expect += bytes(hole)
-            d = apps.stream_bytes(('sp', case['cseed'], i), dlen)
-            f.write(d)
-            expect += d
-        f.truncate(len(expect))
-    expect = bytes(expect)
+
+    def mk_sparse(path):
+        expect = bytearray()
+        with open(path, 'wb') as f:
+            for i, (hole, dlen) in enumerate(case['layout']):
+                f.seek(hole, os.SEEK_CUR)
+                expect += bytes(hole)
+                d = apps.stream_bytes(('sp', case['cseed'], i), dlen)
+                f.write(d)
+                expect += d
+            f.truncate(len(expect))
+        return bytes(expect)
+
+    expect = mk_sparse(src)
 
     async def main(loop):
         class Srv(apps.RecServer):
@@ -404,11 +430,11 @@ def _run_sparse(case, mon, viol):
                 await sftp.put(src, '/dst.bin', sparse=True, **kw)
                 out = os.path.join(root, 'dst.bin')
             elif how == 'get':
-                shutil.copy(src, os.path.join(root, 'r.bin'))
+                mk_sparse(os.path.join(root, 'r.bin'))   # keeps the holes
                 out = os.path.join(tmp, 'got.bin')
                 await sftp.get('/r.bin', out, sparse=True, **kw)
             else:
-                shutil.copy(src, os.path.join(root, 'r.bin'))
+                mk_sparse(os.path.join(root, 'r.bin'))
                 await sftp.copy('/r.bin', '/c.bin', sparse=True, **kw)
                 out = os.path.join(root, 'c.bin')
             with open(out, 'rb') as f:
@@ -421,6 +447,128 @@ def _run_sparse(case, mon, viol):
                 viol.append({'mechanism': 'sparse_destination_differs',
                              'detail': {'how': how, **d,
                                         'layout': case['layout']}})
+            sftp.exit()
+            conn.close()
+            await conn.wait_closed()
+            await env.settle()
+            for ev in env.san.drain():
+                viol.append({'mechanism': 'sanitizer_' + ev['kind'],
+                             'detail': ev})
+
+    try:
+        scen.run(main)
+    finally:
+        shutil.rmtree(tmp, ignore_errors=True)
+    return info
+
+
+# ------------------------------------------------------------------ trees
+
+def _run_tree(case, mon, viol):
+    """Recursive copy of a small tree holding symbolic links to files that
+       are longer than the link text; with follow_symlinks the destination
+       must hold the targets' bytes, without it the links themselves"""
+
+    tmp = _tmp()
+    root = os.path.join(tmp, 'root')
+    os.mkdir(root)
+    info = {}
+    how = case['how']
+    local_src = how == 'put'
+    base = tmp if local_src else root
+    tree = os.path.join(base, 'tree')
+    os.makedirs(os.path.join(tree, 'sub'))
+    files = {}
+    for i, n in enumerate(case['sizes']):
+        rel = ['a.bin', 'sub/b.bin', 'sub/c.bin'][i]
+        data = apps.stream_bytes(('tree', case['cseed'], i), n)
+        with open(os.path.join(tree, rel), 'wb') as f:
+            f.write(data)
+        files[rel] = data
+    links = {'ln_a': 'a.bin', 'sub/ln_b': 'b.bin', 'sub/ln_up': '../a.bin'}
+    for rel, tgt in links.items():
+        os.symlink(tgt, os.path.join(tree, rel))
+
+    async def main(loop):
+        class Srv(apps.RecServer):
+            def session_requested(self):
+                from asyncssh.stream import SSHServerStreamSession
+                # no chroot here: asyncssh's chroot readlink() resolves a
+                # relative link target against the process directory and
+                # answers "no such file"; confinement is fsmon's job
+                return SSHServerStreamSession(
+                    None, lambda chan: asyncssh.SFTPServer(chan), 3)
+
+        async with scen.Env(loop, server_factory=lambda: Srv(
+                apps.EventLog()), chunking=case['chunk'],
+                seed=case['cseed']) as env:
+            conn = await env.connect()
+            sftp = await conn.start_sftp_client()
+            kw = dict(block_size=case['block'], max_requests=case['maxreq'],
+                      recurse=True, follow_symlinks=case['follow'])
+            if case['sparse_arg'] is not None:
+                kw['sparse'] = case['sparse_arg']
+            from .. import fsmon
+            with fsmon.window([tmp]):
+                if how == 'put':
+                    out = os.path.join(root, 'out')
+                    await sftp.put(tree, out, **kw)
+                elif how == 'get':
+                    out = os.path.join(tmp, 'out')
+                    await sftp.get(tree, out, **kw)
+                elif how == 'mget':
+                    out = os.path.join(tmp, 'out')
+                    os.mkdir(out)
+                    await sftp.mget(tree + '/*', out, **kw)
+                else:
+                    out = os.path.join(root, 'out')
+                    await sftp.copy(tree, out, **kw)
+            mon['transfers'] += 1
+            mon['tree_transfers'] += 1
+            for rel, data in files.items():
+                pth = os.path.join(out, rel)
+                try:
+                    with open(pth, 'rb') as f:
+                        got = f.read()
+                except OSError as exc:
+                    viol.append({'mechanism': 'tree_entry_missing',
+                                 'detail': f'{how} {rel}: {exc!r}'})
+                    continue
+                mon['bytes_compared'] += len(data)
+                if got != data:
+                    viol.append({'mechanism': 'destination_differs',
+                                 'detail': {'how': how, 'entry': rel,
+                                            **(apps.diagnose(data, got)
+                                               or {})}})
+            for rel, tgt in links.items():
+                pth = os.path.join(out, rel)
+                want = files[os.path.normpath(os.path.join(
+                    os.path.dirname(rel), tgt))]
+                if case['follow']:
+                    mon['links_followed'] += 1
+                    if os.path.islink(pth):
+                        viol.append({'mechanism': 'link_not_followed',
+                                     'detail': f'{how} {rel}'})
+                        continue
+                    try:
+                        with open(pth, 'rb') as f:
+                            got = f.read()
+                    except OSError as exc:
+                        viol.append({'mechanism': 'tree_entry_missing',
+                                     'detail': f'{how} {rel}: {exc!r}'})
+                        continue
+                    if got != want:
+                        viol.append({
+                            'mechanism': 'followed_link_content_differs',
+                            'detail': {'how': how, 'entry': rel,
+                                       'want_len': len(want),
+                                       'got_len': len(got),
+                                       'sparse': case['sparse_arg']}})
+                else:
+                    if not os.path.islink(pth) or os.readlink(pth) != tgt:
+                        viol.append({'mechanism': 'link_not_preserved',
+                                     'detail': f'{how} {rel}: '
+                                               f'{os.path.islink(pth)}'})
             sftp.exit()
             conn.close()
             await conn.wait_closed()
@@ -506,6 +654,8 @@ def run_case(case):
     try:
         if case['op'] == 'sparse':
             info = _run_sparse(case, mon, viol)
+        elif case['op'] == 'tree':
+            info = _run_tree(case, mon, viol)
         elif case['op'] == 'openssh':
             verdict = _run_openssh(case, mon, viol)
         else:
